@@ -470,7 +470,7 @@ def path_expr(rng, doc, wrap=True):
 
 def near_pair(rng, depth=3):
     """two typed values that are equal, differ in exactly one token (a number, a string, or a member NAME), or are unrelated"""
-    if rng.random() < 0.12:
+    if rng.random() < 0.25:
         # numbers that are neighbours, or far apart, inside one representation class (integers above i64::MAX, doubles near 2^53, …)
         grp = rng.choice([["u9223372036854775808", "u9223372036854777856", "u10000000000000000000", "u12000000000000000000", "u18446744073709551615",
                            "u9223372036854775807", "u9223372036854775809"],
@@ -510,7 +510,9 @@ CMP_EXPRS = ["[0] == [1]", "[0] != [1]", "@[0] == @[1] || `\"ne\"`", "[?@ == `1`
              "([0] == [1]) && `true`", "[0].a == [1].a", "[0][0] == [1][0]", "[0].* == [1].*", "[0][] == [1][]",
              # the same stored value on both sides (ordering is defined on numbers only, whatever the operands' identity)
              "[0] <= [0]", "[1] >= [1]", "[[0] < [0], [0] <= [0], [0] > [0], [0] >= [0], [0] != [0]]", "@ <= @", "[?@ <= @]", "[?@ >= @] | length(@)",
-             "[0].a <= [0].a", "[*].[@ <= @, @ == @]"]
+             "[0].a <= [0].a", "[*].[@ <= @, @ == @]",
+             # every ordering operator in both directions (numbers within the tolerance of == are still ordered exactly)
+             "[[0] <= [1], [0] >= [1], [1] <= [0], [1] >= [0], [0] < [1], [0] > [1]]", "[?[0] <= [1]]", "[0] <= [1] && [1] <= [0]"]
 
 
 # ----------------------------------------------------------------------------- postfix chains over table-shaped data
